@@ -28,6 +28,7 @@ class RunTraceResult:
         self.states = 0
         self.transitions = 0
         self.events = 0
+        self.skipped = 0          # runs not looked at because MAX_REJECTED rejections were already found
 
 
 def validate(runs, keep_dir=None, timeout=600):
@@ -58,7 +59,13 @@ def _run_tlc(key, items, work, timeout):
     return r, n, trace
 
 
+MAX_REJECTED = 8   # a change that breaks every trace must not cost one TLC start per recorded run
+
+
 def _validate_group(key, items, res, keep_dir, timeout):
+    if len(res.rejected) >= MAX_REJECTED:
+        res.skipped += len(items)
+        return
     work = vlib.mktmp("runtrace")
     r, n, trace = _run_tlc(key, items, work, timeout)
     res.states += r.distinct
